@@ -225,6 +225,17 @@ def gen_plain(rng):
     return dict(top=top, rest=rest)
 
 
+def damaged(kind, top, rest):
+    """a mildly damaged file (a count or size field too small / too big): the objects that are really there"""
+    objs = []
+    for it in top:
+        if it[0] == "f":
+            objs.append(item_object(it))
+        elif it[0] == "ext":
+            objs += [sub_object(x) for x in it[1] if x[0] == "f"]
+    return dict(damaged=kind, objects=objs, rest=rest)
+
+
 def mutate_inside(rng, data, lo, hi, how):
     b = bytearray(data)
     if hi > lo:
@@ -266,9 +277,10 @@ def gen_file(rng):
     if kind == "hdr-size-small":
         return header_bytes(objects, size=max(0, hlen - rng.choice([1, 2, 23, 24, 25, 60, hlen - 30, hlen - 29, hlen]))) + rest, kind, None
     if kind == "hdr-size-big":
-        return header_bytes(objects, size=hlen + rng.choice([1, 24, 50, len(rest), len(rest) + 1, 1 << 20, 1 << 62, (1 << 64) - 1 - hlen])) + rest, kind, None
+        return header_bytes(objects, size=hlen + rng.choice([1, 24, 50, len(rest), len(rest) + 1, 1 << 20, 1 << 62, (1 << 64) - 1 - hlen])) + rest, kind, \
+            damaged(kind, top, rest)
     if kind == "count-small":
-        return header_bytes(objects, count=max(0, len(objects) - rng.choice([1, 2, 5]))) + rest, kind, None
+        return header_bytes(objects, count=max(0, len(objects) - rng.choice([1, 2, 5]))) + rest, kind, damaged(kind, top, rest)
     if kind == "count-big":
         return header_bytes(objects, count=len(objects) + rng.choice([1, 2, 1000, (1 << 32) - 1 - len(objects)])) + rest, kind, None
     if kind in ("obj-size-small", "obj-size-big"):
@@ -308,11 +320,15 @@ def gen_file(rng):
             body.insert(rng.randrange(len(body) + 1), inner)
             ds = sum(map(len, body))
         payload = res + struct.pack("<I", ds) + b"".join(body) + tail
-        if rng.random() < 0.1:
+        cut = rng.random() < 0.1
+        if cut:
             payload = payload[:rng.choice([0, 10, 18, 21, 22, 30])]
         others = [o for i, o in zip(top, objects) if i[0] != "ext"]
         others.insert(rng.randrange(len(others) + 1), obj(G["ext"], payload))
-        return header_bytes(others) + rest, kind, None
+        lay2 = None
+        if kind == "ext-datasize-small" and not cut:
+            lay2 = damaged(kind, [i for i in top if i[0] != "ext"] + [("ext", subs)], rest)
+        return header_bytes(others) + rest, kind, lay2
     if kind == "header-in-header":
         inner = obj(G["header"], rbytes(rng, rng.choice([0, 6, 40])))
         if rng.random() < 0.5 or not any(i[0] == "ext" for i in top):
@@ -702,6 +718,22 @@ def check_save(ctx, lay, out, pairs, pad, offered, case, op="save"):
         ctx.violation(key + "tag-placement", "the four metadata objects do not hold the tags as the placement rule says", case)
 
 
+def check_damaged(ctx, lay, op, out, case):
+    """files with a count / size field that does not match what is there, which the code accepts all the same:
+    what a save or delete must not do to them.  Independent of the model."""
+    key = "asf:%s:damaged:" % op
+    pos = 0
+    for blob in lay["objects"]:
+        at = out.find(blob, pos)
+        if at < 0:
+            ctx.violation(key + "object-lost", "a foreign object (%d bytes, GUID %s) that is in the file is no longer there after %s (input: %s)" % (
+                len(blob), blob[:16].hex(), op, lay["damaged"]), case)
+            return
+        pos = at + len(blob)
+    if not out.endswith(lay["rest"]):
+        ctx.violation(key + "data-lost", "the data behind the header objects is no longer at the end of the file in one piece (input: %s)" % lay["damaged"], case)
+
+
 def empty_payloads():
     return dict(cd=b"\0" * 10, ecd=b"\0\0", m=b"\0\0", ml=b"\0\0")
 
@@ -760,9 +792,20 @@ def run(ctx):
     n = int(os.environ.get("VERIF_ASF_CASES", "0")) or ctx.budget(150, 2500)
     reqs = []
     ncases = 0
+    # the three sample files first, with every operation
+    forced = []
+    for name in SAMPLES:
+        with open(os.path.join("/repo/tests/data", name), "rb") as h:
+            d0 = h.read()
+        forced += [(d0, "sample", op0) for op0 in ("save", "delete", "save2")]
+        reqs.append(("asf op=walk data=%s" % hx(d0), real_walk(ASF(io.BytesIO(d0))), dict(kind="sample", op="walk", name=name)))
     for i in range(n):
-        data, kind, lay = gen_file(rng)
-        op = rng.choice(["save", "save", "save", "save", "delete", "save2"])
+        if i < len(forced):
+            data, kind, op = forced[i]
+            lay = None
+        else:
+            data, kind, lay = gen_file(rng)
+            op = rng.choice(["save", "save", "save", "save", "delete", "save2"])
         desc = dict(kind=kind, op=op, data=hx(data) if len(data) < 1500 else "len=%d" % len(data))
         f = io.BytesIO(data)
         k, a = timed(lambda: ASF(f), 20)
@@ -778,7 +821,7 @@ def run(ctx):
             ctx.case(key=("asf", "load", kind, i), nontrivial=False, modelled=True)
             line = {"save": "asf op=save data=%s tags=- pad=default", "delete": "asf op=delete data=%s", "save2": "asf op=walk data=%s"}[op] % hx(data)
             reqs.append((line, impl, dict(desc, step="load")))
-            if lay is not None:
+            if lay is not None and "damaged" not in lay:
                 ctx.violation("asf:load:raises", "%s on a well-formed file" % impl, desc)
             continue
         if rng.random() < 0.35:
@@ -849,6 +892,10 @@ def run(ctx):
             reqs.append(("asf op=read data=%s" % hx(which), read_answer(which), dict(desc, op="read", of="output" if k == "ok" else "input")))
         # ---- the statements on the real output, for the layouts that are what they seem
         if lay is None:
+            continue
+        if "damaged" in lay:
+            if k == "ok":
+                check_damaged(ctx, lay, "save" if op == "save2" else op, out1 if op == "save2" else out, dict(desc))
             continue
         case = dict(desc, _len=len(data), _hlen=len(data) - len(lay["rest"]))
         if op == "delete":
